@@ -287,6 +287,22 @@ def read_path(ctx):
         c1 = find_connect(v, src="port.rdata", dst="r_buffer.sink")
         c2 = find_connect(v, src="r_buffer.source", dst="axi.r")
         if len(c1) != 1 or (c1[0].stmt.omit and c1[0].stmt.omit & {"valid", "ready", "data"}) or len(c2) != 1 or (c2[0].stmt.omit and c2[0].stmt.omit & {"valid", "ready", "data"}):
+            # written field by field (valid / data forward, ready backward, nothing guarded): the same link
+            okf = True
+            for a_, b_ in (("port.rdata", "r_buffer.sink"), ("r_buffer.source", "axi.r")):
+                covered = [c_ for c_ in find_connect(v, src=a_, dst=b_) if not c_.guards]
+                for f_, tgt_, want_ in (("valid", b_ + ".valid", a_ + ".valid"), ("data", b_ + ".data", a_ + ".data"), ("ready", a_ + ".ready", b_ + ".ready")):
+                    if any(not (c_.stmt.omit and f_ in c_.stmt.omit) and (c_.stmt.keep is None or f_ in c_.stmt.keep) for c_ in covered):
+                        continue
+                    ds_ = [l for l in v.drivers(tgt_) if l.kind == "assign"]
+                    if not (len(ds_) == 1 and not ds_[0].guards and key(ds_[0].value) == want_):
+                        okf = False
+            if okf:
+                ob.instance("%s: read data path written field by field" % tag, True)
+                continue
+            if any(key(l.value) == "port.rdata.data" for l in v.drivers("r_buffer.sink.data")) and any("r_buffer.source.data" in support(l.value) for l in v.drivers("axi.r.data")):
+                ob.unknown("%s: the read data path is written field by field with guarded or several drivers: not the plain link this rule reads" % tag)
+                continue
             ob.refute("%s:rdata-path" % tag, "returned data is not forwarded port.rdata -> r_buffer -> axi.r by whole-record connects", None)
 
 
@@ -353,7 +369,11 @@ def shared_cmd(ctx):
         parts = val.args if isinstance(val, Op) and val.op == "|" else ()
         ks = sorted(litset(conj(p)) for p in parts) if parts else []
         ob5.instance("merge", key(val))
-        if sorted(map(sorted, ks)) != sorted([sorted({"port.rdata.data", "~rmw_mask"}), sorted({"axi.w.data", "rmw_mask"})]):
+        maskform = len(parts) == 2 and all(len(k_) == 2 for k_ in ks)
+        if sorted(map(sorted, ks)) != sorted([sorted({"port.rdata.data", "~rmw_mask"}), sorted({"axi.w.data", "rmw_mask"})]) and not maskform:
+            ob5.unknown("the RMW merge is %s: not the (old & ~mask) | (new & mask) form this rule reads (e.g. a per-byte selection): polarity and mask are not decided" % key(val)[:160])
+            merge = []
+        elif sorted(map(sorted, ks)) != sorted([sorted({"port.rdata.data", "~rmw_mask"}), sorted({"axi.w.data", "rmw_mask"})]):
             ob5.refute("merge", "RMW merge is %s, expected (port.rdata.data & ~rmw_mask) | (axi.w.data & rmw_mask): with the polarity swapped the bytes the "
                        "master wrote are replaced by the old memory contents" % key(val), merge[0].loc)
     # the mask, as bit provenance: bit b of the mask comes from strobe bit b // 8 (whether it is assigned byte by byte or as one Cat)
@@ -383,7 +403,9 @@ def shared_cmd(ctx):
         okm = False
     okm = okm and len(prov) == 32 and all(prov.get(i_) == ("axi.w.strb", i_ // 8) for i_ in range(32))
     ob5.instance("mask bytes", [str(l) for l in masks[:2]])
-    if not okm:
+    if not okm and not merge:
+        pass        # no verdict above: the mask of another merge form is not looked for
+    elif not okm:
         ob5.refute("mask", "the RMW mask %s is not built as strobe bit i replicated over bits [8i, 8i+8): %s" % (MASKK, [str(l) for l in masks][:4]), masks[0].loc if masks else None)
     st = [l for l in w.leaves if l.kind == "assign" and key(l.target) == "w_buffer.sink.strb"]
     ob5.instance("RMW write strobes", [key(l.value) for l in st])
